@@ -20,12 +20,23 @@ def tifa_analysis(code=None, report=MAIN_REPORT):
         :py:class:`pedal.tifa.tifa_core.TifaAnalysis`: A TifaAnalysis data
             bundle containing all the information that TIFA learned.
     """
+    submission = report.submission
     if code is None:
-        code = report.submission.main_code
-    if code in report[TIFA_TOOL_NAME]['analyses']:
-        return report[TIFA_TOOL_NAME]['analyses'][code]
-    result = report[TIFA_TOOL_NAME]['instance'].process_code(code)
-    report[TIFA_TOOL_NAME]['analyses'][code] = result
+        code = submission.main_code
+    if submission is not None and code == submission.main_code:
+        # The main file's code, as it currently is (possibly one section of it)
+        filename = submission.main_file
+        line_offset = submission.line_offsets.get(filename, 0)
+    else:
+        # Some other code: its lines are its own, whatever section of the
+        # main file happens to be active
+        filename, line_offset = 'given_code.py', 0
+    # The same text further down the file is a different thing to report on
+    analysis_key = (code, line_offset)
+    if analysis_key in report[TIFA_TOOL_NAME]['analyses']:
+        return report[TIFA_TOOL_NAME]['analyses'][analysis_key]
+    result = report[TIFA_TOOL_NAME]['instance'].process_code(code, filename=filename)
+    report[TIFA_TOOL_NAME]['analyses'][analysis_key] = result
     report[TIFA_TOOL_NAME]['latest'] = result
     return result
 
